@@ -5,6 +5,7 @@
 package legacykm
 
 import (
+	"bytes"
 	"crypto/aes"
 	"crypto/cipher"
 	"crypto/ecdh"
@@ -14,6 +15,7 @@ import (
 	"crypto/sha256"
 	"errors"
 	"fmt"
+	"io"
 	"sync"
 
 	"google.golang.org/protobuf/proto"
@@ -26,15 +28,17 @@ import (
 )
 
 const (
-	MacURL         = "type.googleapis.com/verif.LegacyMac"
-	AeadURL        = "type.googleapis.com/verif.LegacyAead"
-	DaeadURL       = "type.googleapis.com/verif.LegacyDaead"
-	SignerURL      = "type.googleapis.com/verif.LegacySigner"
-	VerifierURL    = "type.googleapis.com/verif.LegacyVerifier"
-	HybridPrivURL  = "type.googleapis.com/verif.LegacyHybridPrivate"
-	HybridPubURL   = "type.googleapis.com/verif.LegacyHybridPublic"
-	UnknownMatURL  = "type.googleapis.com/verif.UnknownMaterial"
-	RemoteURL      = "type.googleapis.com/verif.Remote"
+	MacURL        = "type.googleapis.com/verif.LegacyMac"
+	AeadURL       = "type.googleapis.com/verif.LegacyAead"
+	DaeadURL      = "type.googleapis.com/verif.LegacyDaead"
+	SignerURL     = "type.googleapis.com/verif.LegacySigner"
+	VerifierURL   = "type.googleapis.com/verif.LegacyVerifier"
+	HybridPrivURL = "type.googleapis.com/verif.LegacyHybridPrivate"
+	HybridPubURL  = "type.googleapis.com/verif.LegacyHybridPublic"
+	PrfURL        = "type.googleapis.com/verif.LegacyPrf"
+	StreamURL     = "type.googleapis.com/verif.LegacyStreamingAead"
+	UnknownMatURL = "type.googleapis.com/verif.UnknownMaterial"
+	RemoteURL     = "type.googleapis.com/verif.Remote"
 )
 
 // RawMAC is HMAC-SHA256 with the full 32-byte tag.
@@ -172,6 +176,99 @@ func HybridPublicOf(priv []byte) []byte {
 	return p.PublicKey().Bytes()
 }
 
+// RawPRF is HMAC-SHA256 truncated to the requested length (1..32 bytes).
+type RawPRF struct{ Key []byte }
+
+func (p *RawPRF) ComputePRF(input []byte, outputLength uint32) ([]byte, error) {
+	if outputLength == 0 || outputLength > 32 {
+		return nil, errors.New("legacy prf: output length must be in 1..32")
+	}
+	h := hmac.New(sha256.New, p.Key)
+	h.Write([]byte("verif legacy prf"))
+	h.Write(input)
+	return h.Sum(nil)[:outputLength], nil
+}
+
+// RawStreaming is a one-segment streaming AEAD: nonce(12) || AES-256-GCM(key, nonce, plaintext, aad).
+// The writer emits everything at Close; the reader authenticates the whole stream at the first Read
+// and, like Tink's own readers, reports a valid stream with (n, nil) - also for n == 0 - and the end
+// with io.EOF on a later call.
+type RawStreaming struct{ Key []byte }
+
+type rawStreamWriter struct {
+	s      *RawStreaming
+	w      io.Writer
+	aad    []byte
+	buf    []byte
+	closed bool
+}
+
+func (w *rawStreamWriter) Write(p []byte) (int, error) {
+	if w.closed {
+		return 0, errors.New("legacy streaming: write after close")
+	}
+	w.buf = append(w.buf, p...)
+	return len(p), nil
+}
+
+func (w *rawStreamWriter) Close() error {
+	if w.closed {
+		return nil
+	}
+	w.closed = true
+	ct, err := (&RawAEAD{Key: w.s.Key}).Encrypt(w.buf, w.aad)
+	if err != nil {
+		return err
+	}
+	_, err = w.w.Write(ct)
+	return err
+}
+
+func (s *RawStreaming) NewEncryptingWriter(w io.Writer, aad []byte) (io.WriteCloser, error) {
+	return &rawStreamWriter{s: s, w: w, aad: append([]byte{}, aad...)}, nil
+}
+
+type rawStreamReader struct {
+	s    *RawStreaming
+	r    io.Reader
+	aad  []byte
+	pt   []byte
+	pos  int
+	done bool
+	err  error
+}
+
+func (r *rawStreamReader) Read(p []byte) (int, error) {
+	if r.err != nil {
+		return 0, r.err
+	}
+	if !r.done {
+		ct, err := io.ReadAll(r.r)
+		if err != nil {
+			r.err = err
+			return 0, err
+		}
+		if r.pt, err = (&RawAEAD{Key: r.s.Key}).Decrypt(ct, r.aad); err != nil {
+			r.err = err
+			return 0, err
+		}
+		r.done = true
+		n := copy(p, r.pt)
+		r.pos = n
+		return n, nil
+	}
+	if r.pos >= len(r.pt) {
+		return 0, io.EOF
+	}
+	n := copy(p, r.pt[r.pos:])
+	r.pos += n
+	return n, nil
+}
+
+func (s *RawStreaming) NewDecryptingReader(r io.Reader, aad []byte) (io.Reader, error) {
+	return &rawStreamReader{s: s, r: r, aad: append([]byte{}, aad...)}, nil
+}
+
 type km struct {
 	url       string
 	material  tinkpb.KeyData_KeyMaterialType
@@ -187,9 +284,17 @@ func (k *km) Primitive(serializedKey []byte) (any, error) {
 	return k.primitive(append([]byte{}, serializedKey...))
 }
 func (k *km) NewKey(_ []byte) (proto.Message, error) { return nil, errors.New("not implemented") }
-func (k *km) DoesSupport(typeURL string) bool         { return typeURL == k.url }
-func (k *km) TypeURL() string                         { return k.url }
-func (k *km) NewKeyData(_ []byte) (*tinkpb.KeyData, error) {
+func (k *km) DoesSupport(typeURL string) bool        { return typeURL == k.url }
+func (k *km) TypeURL() string                        { return k.url }
+
+// RefusedFormat is a key format (KeyTemplate.Value) every harness key manager refuses in NewKeyData;
+// any other format (the harness key types have no format fields) yields a fresh random key.
+var RefusedFormat = []byte("verif-refused-key-format")
+
+func (k *km) NewKeyData(format []byte) (*tinkpb.KeyData, error) {
+	if bytes.Equal(format, RefusedFormat) {
+		return nil, fmt.Errorf("%s: refused key format", k.url)
+	}
 	b := make([]byte, k.keyLen)
 	if _, err := rand.Read(b); err != nil {
 		return nil, err
@@ -231,6 +336,8 @@ func Register() {
 			public: func(k []byte) *tinkpb.KeyData {
 				return &tinkpb.KeyData{TypeUrl: HybridPubURL, Value: HybridPublicOf(k), KeyMaterialType: tinkpb.KeyData_ASYMMETRIC_PUBLIC}
 			}}}))
+		must(registry.RegisterKeyManager(&km{url: PrfURL, material: sym32, keyLen: 32, primitive: func(k []byte) (any, error) { return &RawPRF{k}, nil }}))
+		must(registry.RegisterKeyManager(&km{url: StreamURL, material: sym32, keyLen: 32, primitive: func(k []byte) (any, error) { return &RawStreaming{k}, nil }}))
 		must(registry.RegisterKeyManager(&km{url: HybridPubURL, material: tinkpb.KeyData_ASYMMETRIC_PUBLIC, keyLen: 32, primitive: func(k []byte) (any, error) { return &RawHybridEncrypt{k}, nil }}))
 	})
 }
@@ -248,7 +355,7 @@ func Key(url string, value []byte, material tinkpb.KeyData_KeyMaterialType, pref
 // Material returns the key material type of a harness-owned key type.
 func Material(url string) tinkpb.KeyData_KeyMaterialType {
 	switch url {
-	case MacURL, AeadURL, DaeadURL:
+	case MacURL, AeadURL, DaeadURL, PrfURL, StreamURL:
 		return tinkpb.KeyData_SYMMETRIC
 	case SignerURL, HybridPrivURL:
 		return tinkpb.KeyData_ASYMMETRIC_PRIVATE
